@@ -706,6 +706,14 @@ def run_check(prop, tier, seed):
         json.dump(evidence, f, indent=1)
         f.write("\n")
     shutil.rmtree(batch.scratch, ignore_errors=True)
+    # intermediate plan files (unminimised originals, nondeterminism candidates) are not results
+    keep = set(r["replay"] for r in reported) | set(v["replay"] for v in batch.viol.values() if v.get("replay"))
+    for f in glob.glob(os.path.join(batch.outdir, "*")):
+        if f not in keep and (f.endswith(".orig") or f.endswith(".plan") or f.endswith(".tmp")):
+            try:
+                os.unlink(f)
+            except OSError:
+                pass
     log("%s %s: %d executions in %d runs, %d distinct non-trivial, %.1fs build + %.1fs search, violations=%d known=%d exit=%d"
         % (prop, tier, evals, runs, distinct, t_built - t_start, search_s, violations, len(known_seen), rc))
     return rc
